@@ -28,12 +28,14 @@ type engine struct {
 	// after is called after every step with the written slot and the op name
 	after func(d int, op string)
 	hist  []string
+	// useCustom: also run MSMs over a harness-chosen basis with repeated elements (costs one more table construction)
+	useCustom bool
 }
 
 const engineSlots = 14
 
 func newEngine(c *mon.Ctx, mode string, rng *rand.Rand, base *Pool, env *Env) *engine {
-	g := &engine{c: c, mode: mode, rng: rng, base: base, env: env}
+	g := &engine{c: c, mode: mode, rng: rng, base: base, env: env, useCustom: (mode == "C07" || mode == "C08") && c.Shard%3 == 0}
 	g.e = make([]banderwagon.Element, engineSlots)
 	g.sh = make([]ref.Point, engineSlots)
 	for i := range g.e {
@@ -52,7 +54,73 @@ func newEngine(c *mon.Ctx, mode string, rng *rand.Rand, base *Pool, env *Env) *e
 		pt2 := tp[rng.Intn(len(tp))]
 		g.set(5, ElemFromRef(pt2, randNonZeroP(rng), rng.Intn(2) == 0), pt2)
 	}
+	// an element whose y^2 has a structured discrete logarithm in the 2^32 subgroup (low blocks zero, single blocks set)
+	if sp := structuredDlogPoints(); len(sp) > 0 {
+		pt := sp[rng.Intn(len(sp))]
+		g.set(6, ElemFromRef(pt, randNonZeroP(rng), rng.Intn(2) == 0), pt)
+	}
 	return g
+}
+
+var structuredPts []ref.Point
+
+func structuredDlogPoints() []ref.Point {
+	if structuredPts == nil {
+		rng := rand.New(rand.NewSource(20240601))
+		for i := 0; i < 400 && len(structuredPts) < 60; i++ {
+			var D uint32
+			switch i % 4 {
+			case 0:
+				D = uint32(rng.Intn(256)) << (8 * uint(2+rng.Intn(2))) // low 16 bits zero
+			case 1:
+				D = (rng.Uint32() >> 16) << 16
+			case 2:
+				D = uint32(rng.Intn(256)) << (8 * uint(rng.Intn(4)))
+			default:
+				D = uint32(rng.Intn(128)) << 25
+			}
+			x := c17xFromY2(c17target(D&^1, rng))
+			if x == nil || !ref.SubgroupCheck(x) {
+				continue
+			}
+			if yL, _, ok := ref.YFromX(x); ok {
+				structuredPts = append(structuredPts, ref.FromAffine(ref.Affine{X: x, Y: yL}))
+			}
+		}
+	}
+	return structuredPts
+}
+
+// customBasis is a second precomputed-table engine over a basis chosen by the harness: reference multiples with the
+// same element in several slots and the identity in one, so that partial sums cancel inside one MSM.
+type customBasis struct {
+	msm banderwagon.MSMPrecomp
+	sh  []ref.Point
+}
+
+var custom *customBasis
+
+func getCustomBasis(base *Pool) *customBasis {
+	if custom == nil {
+		pts := make([]banderwagon.Element, 256)
+		sh := make([]ref.Point, 256)
+		for i := range pts {
+			j := i % len(base.P)
+			if i%7 == 1 {
+				j = (i - 1) % len(base.P) // same element as the previous slot
+			}
+			sh[i] = base.P[j]
+			pts[i] = ElemFromRef(sh[i], nil, false)
+		}
+		sh[9] = ref.Identity()
+		pts[9] = banderwagon.Identity
+		m, err := banderwagon.NewPrecompMSM(pts)
+		if err != nil {
+			return nil
+		}
+		custom = &customBasis{msm: m, sh: sh}
+	}
+	return custom
 }
 
 func (g *engine) set(i int, e banderwagon.Element, s ref.Point) { g.e[i], g.sh[i] = e, s }
@@ -229,6 +297,40 @@ func (g *engine) step() {
 			g.c.Fail("error/MultiExp", "MultiExp with equal lengths returned "+err.Error(), nil)
 		}
 		g.settle(d, ref.MSM(rp, rs), op, idop)
+		a, b = d, d
+	case k < 80 && g.useCustom:
+		op = "CustomBasisMSM"
+		cb := getCustomBasis(g.base)
+		if cb == nil {
+			break
+		}
+		v := make([]fr.Element, 256)
+		var rp []ref.Point
+		var rs []*big.Int
+		s1 := g.pickScalar()
+		pos := 7 * rng.Intn(36) // slots pos and pos+1 hold the same element
+		switch rng.Intn(3) {
+		case 0: // (s, -s): the two terms cancel, the accumulator passes through the identity
+			v[pos], v[pos+1] = FrFromBig(s1), FrFromBig(ref.NegR(s1))
+			rp, rs = append(rp, cb.sh[pos], cb.sh[pos+1]), append(rs, s1, ref.NegR(s1))
+		case 1:
+			v[pos], v[pos+1] = FrFromBig(s1), FrFromBig(s1)
+			rp, rs = append(rp, cb.sh[pos], cb.sh[pos+1]), append(rs, s1, s1)
+		default:
+			v[9] = FrFromBig(s1) // identity slot
+			rp, rs = append(rp, cb.sh[9]), append(rs, s1)
+		}
+		for e := 0; e < rng.Intn(3); e++ {
+			p2 := 20 + rng.Intn(230)
+			if v[p2].IsZero() {
+				t := g.pickScalar()
+				v[p2] = FrFromBig(t)
+				rp, rs = append(rp, cb.sh[p2]), append(rs, t)
+			}
+		}
+		g.log(fmt.Sprintf("e%d = customBasis.MSM(%d terms around slot %d)", d, len(rs), pos))
+		g.e[d] = cb.msm.MSM(v)
+		g.settle(d, ref.MSM(rp, rs), op, false)
 		a, b = d, d
 	case k < 84:
 		op = "Commit"
